@@ -189,8 +189,16 @@ func (g *rpGen) route(pfx string) Sx {
 	}
 	reqPath := pfx + path
 	if g.dynamic && g.r.Chance(1, 4) { // a dynamic route (it goes through the route cache when caching is on)
-		reg, reqPath = reg+"/{id}", reqPath+"/"+fmt.Sprint(g.r.Intn(3))
-		reg = strings.Replace(reg, "//{id}", "/{id}", 1)
+		if g.r.Chance(1, 3) && !strings.HasSuffix(reg, "/") {
+			// an optional tail: the route is also reached without it (the shortest matching path is the static start itself)
+			reg = reg + g.r.Pick([]string{"[/{id}]", "[.html]"})
+			if g.r.Bool() {
+				reqPath += map[bool]string{true: "/7", false: ".html"}[strings.HasSuffix(reg, "{id}]")]
+			}
+		} else {
+			reg, reqPath = reg+"/{id}", reqPath+"/"+fmt.Sprint(g.r.Intn(3))
+			reg = strings.Replace(reg, "//{id}", "/{id}", 1)
+		}
 	}
 	var later []Sx
 	if g.r.Chance(1, 3) {
@@ -217,7 +225,7 @@ func (g *rpGen) finish(opts []Sx, stmts []Sx) Sx {
 // ---------------- C12 ----------------
 func c12Gen(r *Rng, tier string, i int) Sx {
 	strict := r.Chance(1, 4)
-	g := &rpGen{r: r, nextMW: 1, mwBody: mwOnce, depthMax: r.Range(0, 5), clean: strict}
+	g := &rpGen{r: r, nextMW: 1, mwBody: mwOnce, depthMax: r.Range(0, 5), clean: strict, dynamic: r.Chance(1, 3)}
 	stmts := g.block(0, "", r.Range(1, 6))
 	if g.routeIx == 0 {
 		stmts = append(stmts, g.route(""))
